@@ -1813,3 +1813,33 @@ M("a5-quiet-candidate-repair", "C03", "quiet", "src/compile.rs",
                             }
                             return expr.compile(prg, env, circuit);
                         }""", "the candidate repair of the known finding: operand negated first (no KNOWN-FINDING line expected either)")
+
+# ---------------------------------------------------------------- eighth seed batch as mutants
+M2("p2-join-snapshot-hoisted", "C02", "fire P2", [
+  ("src/compile.rs", """            StmtEnum::JoinLoop(pattern, join_ty, (a, b), body) => {
+                compile_bitonic_merge(""",
+   """            StmtEnum::JoinLoop(pattern, join_ty, (a, b), body) => {
+                let panic_before_branches = circuit.peek_panic().clone();
+                compile_bitonic_merge("""),
+  ("src/compile.rs", """                        process_binding: &mut |env, circuit, join_eq, binding| {
+                            let panic_before_branches = circuit.peek_panic().clone();
+""",
+   """                        process_binding: &mut |env, circuit, join_eq, binding| {
+""")], "seed C02-e: one snapshot of the panic record for the whole join loop")
+M("g6-register-file-too-small", "C16", "fire G6", "src/register_circuit.rs",
+  """        let mut regs = vec![false; self.max_reg_count];""",
+  """        let mut regs = vec![false; self.max_reg_count.min(self.insts.len())];""", "seed C16-e: register file sized by the number of instructions")
+M("s6-ilog2-of-array-length", "C05", "fire S6", "src/compile.rs",
+  """                            let out_of_bounds_elem = 1;
+                            for mux_layer in (0..index.len()).rev() {
+                                let mut muxed_array = Vec::new();
+                                let s = index[mux_layer];
+                                let mut i = 0;
+                                while i < collection.len() {""",
+  """                            let out_of_bounds_elem = 1;
+                            let needed_bits = min(num_elems.ilog2() as usize + 1, index.len());
+                            for mux_layer in (index.len() - needed_bits..index.len()).rev() {
+                                let mut muxed_array = Vec::new();
+                                let s = index[mux_layer];
+                                let mut i = 0;
+                                while i < collection.len() {""", "seed C05-e (inlined): ilog2 of an array length that can be 0")
